@@ -438,6 +438,8 @@ def _guard_child(fn, items, start, conn):
         # the analysed code prints diagnostics to stderr (e.g. failed type probes); keep the check's output clean
         devnull = os.open(os.devnull, os.O_WRONLY)
         os.dup2(devnull, 2)
+        os.dup2(devnull, 1)  # some commands (doctrans, sync) print progress lines; results travel over `conn`
+        sys.stdout = open(os.devnull, "w")
         for k in range(start, len(items)):
             try:
                 r = fn(items[k])
